@@ -24,6 +24,7 @@ PY_METHODS = {
 MUTATORS = {'append', 'extend', 'pop', 'insert', 'remove', 'sort', 'reverse', 'clear', 'update', 'setdefault', 'add', 'discard'}
 
 NP_CONSTS = {
+    'geographiclib.geodesic.Geodesic.WGS84.a': Fr(6378137), 'geographiclib.geodesic.Geodesic.WGS84.f': Fr(1000000000, 298257223563),
     'numpy.nan': 'NAN', 'numpy.NaN': 'NAN', 'numpy.inf': float('inf'), 'numpy.pi': Fr(math.pi),
     'numpy.newaxis': None, 'math.pi': Fr(math.pi), 'math.e': Fr(math.e),
 }
@@ -590,9 +591,30 @@ def register(M):
     def _s_item(interp, v, args, kw, node):
         return v.value() if v.concrete() else v
 
-    @ext('numpy.array', 'numpy.asarray', 'numpy.asanyarray')
+    @ext('numpy.asarray', 'numpy.asanyarray')
+    def _np_asarray(interp, args, kw, node):
+        """np.asarray returns its argument itself (no copy) when it already is an ndarray of the requested dtype (row 1)"""
+        src = args[0] if args else kw.get('a')
+        dt = kwarg(args, kw, 1, 'dtype')
+        if isinstance(src, Vec) and src.kind in ('nd', 'ma'):
+            same = dt is None
+            if dt is not None:
+                code, unit = parse_dtype(interp, dt, node)
+                same = code == src.dtype and (code not in ('M8', 'm8') or unit == src.unit)
+            if same and (src.kind == 'nd' or getattr(node, 'func', None) is not None and getattr(node.func, 'attr', '') == 'asanyarray'):
+                return src
+        return _np_array(interp, args, kw, node)
+
+    @ext('numpy.datetime_data')
+    def _datetime_data(interp, args, kw, node):
+        code, unit = parse_dtype(interp, args[0], node)
+        if code not in ('M8', 'm8'):
+            raise AbsRaise(ExcVal('TypeError', ('cannot get datetime metadata from non-datetime type',)), node)
+        return (unit or 'generic', 1)
+
+    @ext('numpy.array')
     def _np_array(interp, args, kw, node):
-        src = args[0] if args else kw.get('object')
+        src = args[0] if args else kw.get('object', kw.get('a'))
         res = to_array(interp, src, node)
         dt = kwarg(args, kw, 1, 'dtype')
         if dt is not None:
@@ -803,6 +825,12 @@ def register(M):
 
     @meth(Vec, 'to_numpy')
     def _to_numpy(interp, v, args, kw, node):
+        """Series / Index .to_numpy() hands out a view of the underlying buffer when no conversion is needed (row 1: may alias)"""
+        if kw.get('copy') or args[:1] and args[0] is not None and False:
+            return Vec.fresh([El(e.d, False) for e in v.els()], kind='nd', dtype=v.dtype, unit=v.unit)
+        if v.kind in ('series', 'index', 'dtindex') and all(e.m is False for e in v.els()):
+            out = Vec(v.back, list(v.idx), 'nd', v.dtype, v.unit)
+            return out
         return Vec.fresh([El(e.d, False) for e in v.els()], kind='nd', dtype=v.dtype, unit=v.unit)
 
     @meth(Vec, 'tolist')
@@ -864,7 +892,9 @@ def register(M):
                     out.append(e)
                 else:
                     out.append(El(fn_expr(num_of_el(e.d)), e.m))
-            return vv.like(out, dtype=out_dtype or vv.dtype, kind=('nd' if vv.kind in ('index', 'dtindex') else vv.kind))
+            res = vv.like(out, dtype=out_dtype or vv.dtype, kind=('nd' if vv.kind in ('index', 'dtindex') else vv.kind))
+            res.sel_mask = vv.sel_mask
+            return res
         return f
 
     E['numpy.abs'] = E['numpy.absolute'] = E['numpy.fabs'] = unary_ufunc(X.abs_)
@@ -913,7 +943,8 @@ def register(M):
                     return MASKED
                 return mkbool(e.d) if X.is_formula(e.d) else Sc(e.d)
             kind = result_kind(a, b)
-            return Vec.fresh(out, kind=kind, dtype=out_dtype or tmpl.dtype, unit=tmpl.unit)
+            from .models_np import with_sel
+            return with_sel(Vec.fresh(out, kind=kind, dtype=out_dtype or tmpl.dtype, unit=tmpl.unit), a, b)
         return f
 
     E['numpy.minimum'] = E['numpy.fmin'] = binary_ufunc(lambda x, y: X.min_(x, y))
@@ -1269,8 +1300,10 @@ def register(M):
             vs = [as_vec(it, x, n) for x in a]
             if any(v is None for v in vs):
                 raise AnalysisError('np.vectorize over scalars not modelled', n)
-            ln = {len(v) for v in vs}
-            if len(ln) != 1:
+            from .models_np import sel_of
+            sm = sel_of(*vs)
+            ln = {v.full_len() for v in vs}
+            if len(ln) != 1 or (sm is not None and any(v.sel_mask is None for v in vs)):
                 raise AbsRaise(ExcVal('ValueError', ('operands could not be broadcast together',)), n)
             out = []
             for i in range(ln.pop()):
@@ -1285,7 +1318,9 @@ def register(M):
                     mm = m_or(mm, e.m)
                 out.append(El(o[1], mm))
             kind = 'ma' if any(v.kind == 'ma' for v in vs) else 'nd'
-            return Vec.fresh(out, kind=kind, dtype='f8')
+            res = Vec.fresh(out, kind=kind, dtype='f8')
+            res.sel_mask = sm
+            return res
         return PyCallable(run, 'vectorized')
 
     @ext('geographiclib.geodesic.Geodesic.WGS84.Inverse')
